@@ -130,6 +130,11 @@ def gen_program(rng, h, le, asz, n):
     return raw, ins
 
 
+# the two string sections of the version 5 path forms: the same names at different offsets
+STR = b'\x00zzz\x00/usr/src\x00inc\x00a.c\x00b.h\x00'
+LINE_STR = b'\x00b.h\x00qq\x00a.c\x00inc\x00x\x00/usr/src\x00'
+
+
 def gen_unit(rng, le, fmt, asz, version):
     """(bytes of one line-number unit, header dict, instruction list)"""
     bo = 'little' if le else 'big'
@@ -151,11 +156,44 @@ def gen_unit(rng, le, fmt, asz, version):
     dirs = [b'/usr/src', b'inc']
     files = [(b'a.c', 0, 5, 6), (b'b.h', 1, 0, 0)]
     if version >= 5:
-        # directory format: path as DW_FORM_string; files: path string, directory_index udata
-        rest += bytes([1]) + _uleb(1) + _uleb(0x08)
-        rest += _uleb(len(dirs)) + b''.join(d + b'\x00' for d in dirs)
-        rest += bytes([2]) + _uleb(1) + _uleb(0x08) + _uleb(2) + _uleb(0x0f)
-        rest += _uleb(len(files)) + b''.join(f[0] + b'\x00' + _uleb(f[1]) for f in files)
+        # 6.2.4.1: each table is described by an entry format (content type code, form) and every entry follows it.
+        # Paths are inline strings or offsets into .debug_str (DW_FORM_strp) / .debug_line_str (DW_FORM_line_strp);
+        # the two string sections hold the names at different offsets (STR / LINE_STR below).
+        def path(form, name):
+            if form == 0x08:
+                return name + b'\x00'
+            table = STR if form == 0x0e else LINE_STR
+            return table.index(b'\x00' + name + b'\x00').__add__(1).to_bytes(offw, bo)
+
+        def num(form, v):
+            return {0x0f: _uleb(v), 0x0b: v.to_bytes(1, bo), 0x05: v.to_bytes(2, bo), 0x06: v.to_bytes(4, bo)}[form]
+        dform = rng.choice([0x08, 0x0e, 0x1f])
+        rest += bytes([1]) + _uleb(1) + _uleb(dform)
+        rest += _uleb(len(dirs)) + b''.join(path(dform, d) for d in dirs)
+        fmt_fields = [(1, rng.choice([0x08, 0x0e, 0x1f])), (2, rng.choice([0x0f, 0x0b, 0x05]))]
+        if rng.random() < 0.4:
+            fmt_fields.append((3, rng.choice([0x0f, 0x06])))          # DW_LNCT_timestamp
+        if rng.random() < 0.4:
+            fmt_fields.append((4, rng.choice([0x0f, 0x0b, 0x05])))    # DW_LNCT_size
+        if rng.random() < 0.4:
+            fmt_fields.append((5, 0x1e))                              # DW_LNCT_MD5 as DW_FORM_data16
+        rng.shuffle(fmt_fields)
+        rest += bytes([len(fmt_fields)]) + b''.join(_uleb(c) + _uleb(f) for c, f in fmt_fields)
+        ents = b''
+        for f in files:
+            for c, form in fmt_fields:
+                if c == 1:
+                    ents += path(form, f[0])
+                elif c == 2:
+                    ents += num(form, f[1])
+                elif c == 3:
+                    ents += num(form, f[2])
+                elif c == 4:
+                    ents += num(form, f[3])
+                else:
+                    ents += bytes(rng.randrange(256) for _ in range(16))
+        rest += _uleb(len(files)) + ents
+        h['entry_formats'] = (dform, fmt_fields)
     else:
         rest += b''.join(d + b'\x00' for d in dirs) + b'\x00'
         rest += b''.join(f[0] + b'\x00' + _uleb(f[1]) + _uleb(f[2]) + _uleb(f[3]) for f in files) + b'\x00'
